@@ -7,9 +7,9 @@ usage: sensitivity.py [name ...]      (no names: all mutations)
 """
 import json, os, subprocess, sys, time, shutil
 
-REPO = "/repo"
+REPO = os.environ.get("SENS_REPO", "/repo")   # a scratch git worktree of /repo may be given instead
 CORE = REPO + "/trustfall_core/src"
-SCRATCH = "/tmp/tfmut"
+SCRATCH = os.environ.get("SENS_SCRATCH", "/tmp/tfmut")
 MUTS = [
  ("C01-drop-optional-pass-in-filters", "interpreter/filtering.rs",
   "    (ctx.within_nonexistent_optional() || filter_op(left, right)).then_some(ctx)\n}",
@@ -191,7 +191,7 @@ def main():
     for name, rel, old, new, checks in MUTS:
         if want and name not in want:
             continue
-        assert sh("git -C /repo status --porcelain").stdout.strip() == "", "repo not clean"
+        assert sh(f"git -C {REPO} status --porcelain").stdout.strip() == "", "repo not clean"
         shutil.rmtree(vdir, ignore_errors=True)
         os.makedirs(vdir + "/evidence"); os.makedirs(vdir + "/replays"); os.makedirs(vdir + "/target")
         shutil.copy("/verif/known_findings.json", vdir)
@@ -201,7 +201,15 @@ def main():
             apply(name, rel, old, new)
             t0 = time.time()
             # does the mutant still compile, and does the existing core suite still pass?
-            b = sh(f"cd /verif/sim && CARGO_TARGET_DIR={SCRATCH}/target cargo build --release --offline -q 2>&1 | tail -5")
+            simdir = "/verif/sim"
+            if REPO != "/repo":
+                # scratch copy of the simulator pointing at the scratch worktree (leaves /repo alone)
+                simdir = SCRATCH + "/sim"
+                shutil.rmtree(simdir, ignore_errors=True)
+                shutil.copytree("/verif/sim", simdir, ignore=shutil.ignore_patterns(".cargo"))
+                sh(f"sed -i 's#path = \"/repo/trustfall_core\"#path = \"{REPO}/trustfall_core\"#' {simdir}/Cargo.toml")
+                sh(f"sed -i 's#/repo/trustfall_core/src/interpreter/execution.rs#{REPO}/trustfall_core/src/interpreter/execution.rs#' {simdir}/src/runner.rs")
+            b = sh(f"cd {simdir} && CARGO_NET_OFFLINE=true CARGO_TARGET_DIR={SCRATCH}/target cargo build --release --offline -q 2>&1 | tail -5")
             entry["builds"] = os.path.exists(f"{SCRATCH}/target/release/tfsim") and b.returncode == 0 and "error" not in b.stdout
             for c in checks:
                 if c == "C24":
@@ -218,7 +226,7 @@ def main():
                 entry["checks"][c] = {"detected": r.returncode == 1 and bool(viol), "exit": r.returncode, "how": (detail[0][:300] if detail else r.stdout[-300:])}
             entry["seconds"] = round(time.time() - t0, 1)
         finally:
-            sh("git -C /repo checkout -- .")
+            sh(f"git -C {REPO} checkout -- .")
         results[name] = entry
         print(name, json.dumps(entry["checks"])[:400], flush=True)
         os.makedirs("/verif/sensitivity", exist_ok=True)
